@@ -728,3 +728,95 @@ func genRestart(rng *rand.Rand, seed int64) *Scenario {
 	sort.SliceStable(sc.Steps, func(i, j int) bool { return sc.Steps[i].At < sc.Steps[j].At })
 	return sc
 }
+
+// genMix: everything at once — instances with random features (priorities and takeover, scripted health checks,
+// connection monitoring, periodic validation, blocking callbacks), random latencies with transient faults, and a random
+// programme of API calls, connection notifications, outside writes, partitions, crashes and Watch failures.  No
+// hypothesis is promised: only the unconditional properties and the implementation models are checked.
+func genMix(rng *rand.Rand, seed int64) *Scenario {
+	h := []time.Duration{200 * ms, 400 * ms, 1000 * ms}[rng.Intn(3)]
+	ttl := time.Duration(3+rng.Intn(3)) * h
+	n := 1 + rng.Intn(4)
+	sc := &Scenario{Name: "mix", Seed: seed, StoreTTL: ttl, Lat: map[int]LatSpec{0: {Min: 1 * ms, Max: h / 6}},
+		WatchMin: 1 * ms, WatchMax: []time.Duration{h / 8, h / 2, h}[rng.Intn(3)], Sample: h / 2, MaxLat: 0}
+	if rng.Intn(3) == 0 {
+		sc.WatchDrop = 0.3
+	}
+	end := 30 * h
+	for i := 1; i <= n; i++ {
+		is := InstSpec{ID: i, Group: "g", TTL: ttl, H: h}
+		if rng.Intn(3) == 0 {
+			is.Prio = rng.Intn(4)
+			is.Takeover = is.Prio > 0 && rng.Intn(3) > 0
+		}
+		if rng.Intn(4) == 0 {
+			is.HasHealth = true
+			is.MaxFail = rng.Intn(4)
+			for k := 0; k < 40; k++ {
+				is.Health = append(is.Health, []int{1, 1, 1, 0, 0, 2}[rng.Intn(6)])
+			}
+		}
+		if rng.Intn(3) == 0 {
+			is.ConnMon = true
+			if rng.Intn(2) == 0 {
+				is.Grace = 2*h + time.Duration(rng.Int63n(int64(2*h)))
+			}
+		}
+		if rng.Intn(3) == 0 {
+			is.Val = h + time.Duration(rng.Int63n(int64(2*h)))
+		}
+		switch rng.Intn(6) {
+		case 0:
+			is.Promote = "block"
+		case 1:
+			is.Promote = "none"
+		}
+		sc.Insts = append(sc.Insts, is)
+		sc.Steps = append(sc.Steps, Step{At: time.Duration(rng.Int63n(int64(3*h)))/2*2 + 1, Kind: "start", Inst: i})
+		if rng.Intn(3) == 0 {
+			sc.Lat[i] = LatSpec{Min: 1 * ms, Max: []time.Duration{h / 4, h, 2 * h}[rng.Intn(3)], FaultProb: []float64{0, 0.1, 0.4}[rng.Intn(3)],
+				Faults: []string{"err", "hang", "acklost", "hangafter"}, From: time.Duration(rng.Int63n(int64(end / 2))), To: end/2 + time.Duration(rng.Int63n(int64(end/2)))}
+		}
+	}
+	k := 4 + rng.Intn(12)
+	for j := 0; j < k; j++ {
+		at := time.Duration(rng.Int63n(int64(end-2*h)))/2*2 + 1
+		i := 1 + rng.Intn(n)
+		switch rng.Intn(14) {
+		case 0:
+			sc.Steps = append(sc.Steps, Step{At: at, Kind: "stop", Inst: i})
+		case 1, 2:
+			sc.Steps = append(sc.Steps, Step{At: at, Kind: "stopctx", Inst: i, Del: rng.Intn(2) == 0, Wait: rng.Intn(2) == 0,
+				Timeout: []time.Duration{0, h / 16, 2 * time.Second}[rng.Intn(3)]})
+		case 3, 4:
+			sc.Steps = append(sc.Steps, Step{At: at, Kind: "start", Inst: i})
+		case 5:
+			sc.Steps = append(sc.Steps, Step{At: at, Kind: "validate", Inst: i, CtxTimeout: []time.Duration{0, h / 10}[rng.Intn(2)]})
+		case 6:
+			sc.Steps = append(sc.Steps, Step{At: at, Kind: "validate-or-demote", Inst: i})
+		case 7:
+			sc.Steps = append(sc.Steps, Step{At: at, Kind: "extput", Key: "g", Bytes: tamperValues[rng.Intn(len(tamperValues))]})
+		case 8:
+			sc.Steps = append(sc.Steps, Step{At: at, Kind: "extdelete", Key: "g"})
+		case 9, 10:
+			if sc.Insts[i-1].ConnMon {
+				sc.Steps = append(sc.Steps, Step{At: at, Kind: []string{"disconnect", "reconnect", "closed"}[rng.Intn(3)], Inst: i})
+				if rng.Intn(2) == 0 {
+					sc.Steps = append(sc.Steps, Step{At: at + time.Duration(rng.Int63n(int64(3*h)))/2*2 + 2, Kind: "reconnect", Inst: i})
+				}
+			}
+		case 11:
+			sc.Steps = append(sc.Steps, Step{At: at, Kind: "partition", Inst: i, N: 1}, Step{At: at + time.Duration(rng.Int63n(int64(4*h)))/2*2 + 2, Kind: "partition", Inst: i, N: 0})
+		case 12:
+			sc.Steps = append(sc.Steps, Step{At: at, Kind: "watchfail", Inst: i, N: 1 + rng.Intn(6)})
+		default:
+			if rng.Intn(4) == 0 {
+				sc.Steps = append(sc.Steps, Step{At: at, Kind: "crash", Inst: i})
+			}
+		}
+	}
+	sc.FaultsEnd = 1 << 60
+	sc.End = end
+	sort.SliceStable(sc.Steps, func(a, b int) bool { return sc.Steps[a].At < sc.Steps[b].At })
+	return sc
+}
